@@ -8,7 +8,7 @@ from common import *
 PID = "C04"
 PROPS = "props/C04.v"
 GOTAB = ["pdf417.go"]
-GOFILES = ["pdf417.go"]
+GOFILES = ["pdf417.go", "all.go"]
 EXTRACT = ["base", "pdf417"]
 HANDLERS = ["h_pdf417.ml"]
 
@@ -413,3 +413,17 @@ def coq_case(line, impl_out):
     except Exception:
         pass
     return "KSkip"
+
+
+def public_line(line):
+    # pdf <level> <hex> <cols probed from the implementation> <scheme>: plain encodes only
+    t = line.split(" ")
+    if t[0] == "pdf" and len(t) >= 3 and (len(t) < 5 or t[4] == "0"):
+        return "encfull pdf %s %s" % (t[1], t[2])
+    return None
+
+
+def extra(rep, impl_exe, model_exe, rng, tier):
+    # returned barcodes must remain what they were when other symbols are encoded afterwards
+    import held
+    return held.held_phase(rep, impl_exe, rng, ['pdf 0', 'pdf 2', 'pdf 5'], n=8 if tier == "quick" else 60)
